@@ -1,4 +1,5 @@
 """C05 - evaluation and compilation are deterministic."""
+import json
 import os
 import subprocess
 from concurrent.futures import ThreadPoolExecutor
@@ -59,6 +60,135 @@ def container_program(rng):
     return "\n".join(lines)
 
 
+INT_EDGES = [0, 1, -1, 255, 256, 65535, 2 ** 31 - 1, 2 ** 31, 2 ** 32, 2 ** 53 - 1, 2 ** 53, 2 ** 53 + 1, 2 ** 53 + 3, 2 ** 54 + 2, 2 ** 56 + 1,
+             10 ** 15, 10 ** 16 + 1, 10 ** 17 + 7, 10 ** 18 + 9, 1700000000123456789, 2 ** 62 - 1, 2 ** 62, 2 ** 62 + 1, 2 ** 63 - 2, 2 ** 63 - 1,
+             0x7FFFFFFFFFFFFFFF, 0x20000000000001, 0x5555555555555555, 0x123456789ABCDEF]
+FLOAT_EDGES = ["0.0", "-0.0", "0.1", "0.5", "1.0", "2.5", "8988465674311579" + "0" * 292 + ".0", "179769313486231570" + "0" * 291 + ".0",
+               "0." + "0" * 323 + "5", "0." + "0" * 307 + "22250738585072014", "0." + "0" * 320 + "1", "9007199254740993.0", "9007199254740992.0",
+               "0.30000000000000004", "123456789012345680000.0", "3.141592653589793", "4.9406564584124654", "0.000001", "1234567.125",
+               "1" + "0" * 22 + ".0", "0.1000000000000000055511151231257827", "100000000000000000000000000000.0"]
+STR_EDGES = ['""', '"a"', '"\\x00"', '"a\\x00b"', '"\\t\\n\\r"', '"\\\\"', '"\\""', '"\\x7f"', '"\\x01\\x02\\x1f"', '"é"', '"\u20ac"', '"\U0001F600"', '"e\u0301"', '"\u2028\u2029"',
+             '"\ufeffbom"', '"\u00a0"', '"<>&\\u003c"', '"\\u00e9"', '"\\u2028"', '"\\U0001F600"', '`raw \\n {x} "q"`', '"{not} a template"', '"\\176"', '"\\101"',
+             '"' + "x" * 300 + '"', '"\ud7ff\ue000"', '"\\e[0m"', '"\\a\\b\\f\\v"', "'t{1}\\n'"]
+
+
+def constant_program(rng):
+    """constants at the boundaries of every scalar type, as literals in expressions, in containers and as parameter defaults"""
+    r = rng
+
+    def intlit():
+        n = r.choice(INT_EDGES)
+        if r.chance(1, 4):
+            n = n + r.choice([-2, -1, 1, 2]) if abs(n) < 2 ** 63 - 3 else n
+        form = r.below(5)
+        if n >= 0 and form == 0:
+            t = hex(n)
+        elif n >= 0 and form == 1 and n < 2 ** 63:
+            t = "0" + oct(n)[2:] if n > 7 else str(n)
+        else:
+            t = str(n)
+        if r.chance(1, 3):
+            t = "-" + t if not t.startswith("-") else t[1:]
+        return t
+
+    def const():
+        k = r.below(10)
+        if k < 5:
+            return intlit()
+        if k < 7:
+            f = r.choice(FLOAT_EDGES)
+            return "-" + f if r.chance(1, 4) and not f.startswith("-") else f
+        if k < 9:
+            return r.choice(STR_EDGES)
+        return r.choice(["true", "false", "nil"])
+    lines = ["out := []"]
+    for _ in range(2 + r.below(5)):
+        k = r.below(10)
+        if k < 3:
+            c = const()
+            lines.append("out.append(%s)" % c)
+        elif k == 3:
+            lines.append("out.append(%s %% 10)" % intlit())
+        elif k == 4:
+            lines.append("out.append(string(%s) + \"|\" + string(%s))" % (const(), const()))
+        elif k == 5:
+            lines.append("out.append([%s, %s, {\"k\": %s}])" % (const(), const(), const()))
+        elif k == 6:
+            name = "f%d" % len(lines)
+            ps = ", ".join("p%d=%s" % (i, const()) for i in range(1 + r.below(4)))
+            lines.append("func %s(%s) { return [%s] }\nout.append(%s())" % (name, ps, ", ".join("p%d" % i for i in range(ps.count("=")) ), name))
+        elif k == 7:
+            lines.append("out.append(func(a=%s, b=%s) { return [a, b, a == %s] }())" % (intlit(), const(), intlit()))
+        elif k == 8:
+            a, b = intlit(), intlit()
+            lines.append("out.append(try(func() { return [%s == %s, %s < %s, %s - %s, (%s) & 0xFF, (%s) >> 3] }, \"E\"))" % (a, b, a, b, a, b, a, a))
+        else:
+            lines.append("const K%d = %s\nout.append(K%d)\nprint(K%d)" % (len(lines), const(), len(lines), len(lines)))
+    lines.append("out")
+    return "\n".join(lines)
+
+
+def os_layer_case(rng):
+    """A VirtualOS configuration whose Go maps have several entries that matter for one lookup - mount points nested in one
+    another (3 to 7 deep, with and without a root mount), sibling mount points whose names extend one another, a larger
+    environment - and a script that reads, stats, lists, writes, renames and removes at every depth, by absolute and relative
+    paths.  Each mount answers with its own tag, so the result tells which mount served every access."""
+    r = rng
+    segs = ["data", "cache", "deep", "x", "y", "tmp", "srv", "a", "b", "lib"]
+    mounts = {}
+    if r.chance(3, 4):
+        mounts["/"] = "ROOT"
+    chain = []
+    cur = ""
+    for d in range(3 + r.below(5)):
+        cur += "/" + r.choice(segs)
+        if cur not in mounts:
+            mounts[cur] = "M%d" % d
+            chain.append(cur)
+    for i in range(r.below(4)):
+        base = r.choice(chain)
+        sib = r.choice([base + "2", base + "-old", base[:-1] if len(base) > 2 else base + "z", base + "/" + r.choice(segs) + "_s",
+                        "/" + r.choice(segs) + "_t"])
+        if sib not in mounts and sib != "/":
+            mounts[sib] = "S%d" % i
+    env = dict(("V%d" % i, str(i)) for i in range(2 + r.below(8)))
+    cwd = r.choice(["/"] + chain)
+    points = sorted(mounts)
+    lines = ["out := []", "func q(f) { return try(f, func(e) { return \"E:\" + string(e) }) }"]
+
+    def somepath():
+        mp = r.choice(points)
+        mp0 = "" if mp == "/" else mp
+        return r.choice([mp0 + "/f.txt", mp0 + "/sub/g.txt", mp0 + "/sub/deeper/h.txt", mp, mp0 + "/", mp0 + "x/f.txt", mp0 + "/../f.txt",
+                         mp0 + "/./f.txt", mp0 + "//f.txt", mp0 + "/" + r.choice(segs) + "/f.txt", mp0 + "/" + r.choice(segs)])
+    for _ in range(6 + r.below(10)):
+        p = somepath()
+        k = r.below(12)
+        if k < 4:
+            lines.append("out.append(q(func() { return string(os.read_file(%s)) }))" % json.dumps(p))
+        elif k == 4:
+            lines.append("out.append(q(func() { st := os.stat(%s); return [st.name, st.size] }))" % json.dumps(p))
+        elif k == 5:
+            lines.append("out.append(q(func() { return os.read_dir(%s).map(func(e) { return e.name }) }))" % json.dumps(p))
+        elif k == 6:
+            lines.append("out.append(q(func() { os.write_file(%s, \"w%d\"); return string(os.read_file(%s)) }))" % (json.dumps(p), len(lines), json.dumps(p)))
+        elif k == 7:
+            p2 = somepath()
+            lines.append("out.append(q(func() { os.rename(%s, %s); return string(os.read_file(%s)) }))" % (json.dumps(p), json.dumps(p2), json.dumps(p2)))
+        elif k == 8:
+            lines.append("out.append(q(func() { os.remove(%s); return string(os.read_file(%s)) }))" % (json.dumps(p), json.dumps(p)))
+        elif k == 9:
+            mp = r.choice(points)
+            rel = r.choice(["f.txt", "sub/g.txt", "../f.txt", "./f.txt", r.choice(segs) + "/f.txt"])
+            lines.append("out.append(q(func() { os.chdir(%s); return [os.getwd(), string(os.read_file(%s))] }))" % (json.dumps(mp), json.dumps(rel)))
+        elif k == 10:
+            lines.append("out.append(q(func() { f := open(%s); d := string(f.read()); f.close(); return d }))" % json.dumps(p))
+        else:
+            lines.append("out.append(q(func() { return [os.environ(), os.getenv(\"V1\"), os.getwd()] }))")
+    lines.append("out")
+    return {"mounts": mounts, "cwd": cwd, "env": env, "src": "\n".join(lines)}
+
+
 def run(res):
     tier = res.tier
     nprog = 1200 if tier == "quick" else 25000
@@ -95,7 +225,20 @@ def run(res):
         srcs.append(gen.Gen(rng, features=["template"] if i % 3 == 0 else [], budget=35).program())
     for i in range(ncont):
         srcs.append(container_program(rng))
-    inp = ("\n".join(s.encode("utf-8", "surrogateescape").hex() for s in srcs) + "\n").encode()
+    # own random streams for the families added later (the streams above stay as they were)
+    krng = C.Rng(res.seed ^ 0x636f6e7374)
+    nconst = 800 if tier == "quick" else 20000
+    for i in range(nconst):
+        srcs.append(constant_program(krng))
+    orng = C.Rng(res.seed ^ 0x6f736c61796572)
+    nos = 400 if tier == "quick" else 8000
+    oscases = {}
+    for i in range(nos):
+        c = os_layer_case(orng)
+        oscases[len(srcs)] = c
+        srcs.append(c["src"])
+    inp = ("\n".join(("O " + json.dumps(oscases[k]).encode("utf-8").hex()) if k in oscases else s.encode("utf-8", "surrogateescape").hex()
+                      for k, s in enumerate(srcs)) + "\n").encode()
 
     def proc(k):
         # a fresh process each time: Go re-rolls its hash seed
@@ -133,20 +276,39 @@ def run(res):
                 why = "compiling the same source several times in one process gave different bytes / errors"
             elif any(x[4] != "same_eval=1" for x in f):
                 why = "evaluating the same source several times in fresh VMs gave different results / output"
+            elif any(len(x) < 6 or x[5] != "same_reload=1" for x in f):
+                bad = [x for x in f if len(x) >= 6 and x[5] != "same_reload=1"]
+                detail = ""
+                if bad and len(bad[0]) > 7:
+                    try:
+                        detail = ": " + bytes.fromhex(bad[0][7]).decode("utf-8", "replace")
+                    except ValueError:
+                        pass
+                why = ("the compiled code is not identical after serialisation: MarshalCode -> UnmarshalCode -> MarshalCode gives other bytes, or the "
+                       "code read back evaluates differently from the source" + detail)
             elif len({x[1] for x in f}) != 1:
                 why = "the marshalled bytecode differs between fresh processes"
             elif len({x[2] for x in f}) != 1:
                 why = "result / error / output differ between fresh processes"
         if why:
-            oracle.append({"kind": "oracle-violation", "source": src, "impl": lines[:3], "why": why})
+            v = {"kind": "oracle-violation", "source": src, "impl": lines[:3], "why": why}
+            if i in oscases:
+                v["virtual_os"] = {k: oscases[i][k] for k in ("mounts", "cwd", "env")}
+                v["why"] += (" (the script runs under a VirtualOS with the mounts / environment given in `virtual_os`; every mount is a tagged in-memory "
+                             "filesystem, so a result `TAG:path` names the mount that served the access)")
+            oracle.append(v)
 
     cov["evaluations"] = evals
     cov["distinct_nontrivial"] = len(distinct)
     cov["rule"] = ("programs of the C01 generator and map/set-centred programs over the default builtins (printing, iteration, keys/values/items, "
                    "sorted, json, update/union/intersection, os.environ on a virtual OS, map literals with duplicate keys); each is compiled "
                    "and evaluated %d times in fresh VMs in each of %d fresh processes (fresh hash seeds); marshalled bytes, compile error "
-                   "text, result, error text and captured stdout must all coincide. %d map-range sites of the current source are "
-                   "classified. Non-trivial = distinct programs that compile." % (nrep, nproc, nsites))
+                   "text, result, error text and captured stdout must all coincide; the marshalled code is read back and marshalled again (twice: same bytes) and "
+                   "the code read back is evaluated (same result / error / output as the source); %d programs of constants at the boundaries of the scalar types "
+                   "(integers around 2^53, 2^62, 2^63, floats with long digit strings / -0.0 / denormals, strings of every character class; as literals, in containers, "
+                   "as parameter defaults); %d OS-layer cases (VirtualOS with 3-7 mount points nested in one another plus look-alike siblings, tagged in-memory "
+                   "filesystems, reads / stats / listings / writes / renames / removes by absolute and relative paths, environment). %d map-range sites of the current source are "
+                   "classified, and the text of every function that holds one is the text that was reviewed (digest). Non-trivial = distinct programs that compile." % (nrep, nproc, nconst, nos, nsites))
     cov["samples"] = [{"source": srcs[-1], "digests": runs[0][len(srcs) - 1]}]
     cov["map_range_sites"] = nsites
     cov["skipped_not_parsing"] = skipped
